@@ -11,10 +11,13 @@ OPS = [("acq", None), ("acq", "td"), ("acq", "abs"), ("acq", "zero"), ("acq_ctx"
 SPECS = [("sem", 0), ("sem", 1), ("sem", 2), ("bsem", 1), ("bsem", 2), ("lock",)]
 
 
-def gc_history(kind):
-    """> 100 timed-out waiters: exercises the timeout garbage collector."""
+def gc_history(kind, live_at=()):
+    """> 100 timed-out waiters: exercises the timeout garbage collector; live_at: after how many timeouts a waiter
+    without timeout joins the queue (so live waiters sit before, between and behind the dead ones when it runs)."""
     hist = []
-    for _ in range(103):
+    for k in range(103):
+        if k in live_at:
+            hist.append((kind, None))
         hist += [(kind, "td"), ("adv",), ("adv",)]
     return hist
 
@@ -53,16 +56,19 @@ class C33(Check):
                 pre = [("acq", None)] if sp[0] == "lock" else []
                 # three live waiters are queued while the collector prunes the timed-out ones: service stays FIFO
                 pre += [("acq", None), ("acq", None), ("acq", None)]
-                hist = pre + gc_history("acq") + [("rel",), ("acq", None), ("rel",), ("acq", "td"), ("rel",), ("rel",), ("rel",)]
-                st.ev()
-                st.transitions += len(hist)
-                try:
-                    canon, nf = syncmodel.run_history(sp, tuple(hist))
-                    st.state(("gc", sp, canon))
-                    st.note("gc_history_futures", nf)
-                except syncmodel.Mismatch as m:
-                    st.violation("gc:%s:%s" % (sp[0], m.what.split(" ")[0]),
-                                 "%r gc history: %s" % (sp, m), {"spec": sp, "hist": hist})
+                tail = [("rel",), ("acq", None), ("rel",), ("acq", "td"), ("rel",), ("rel",), ("rel",), ("rel",), ("rel",), ("rel",)]
+                for live_at in ((), (40, 100), (1, 99, 100), (100,), (50, 101)):
+                    hist = pre + gc_history("acq", live_at) + tail
+                    st.ev()
+                    st.transitions += len(hist)
+                    try:
+                        canon, nf = syncmodel.run_history(sp, tuple(hist))
+                        st.state(("gc", sp, live_at, canon))
+                        st.note("gc_history_futures", nf)
+                    except syncmodel.Mismatch as m:
+                        st.violation("gc:%s:%s" % (sp[0], m.what.split(" ")[0]),
+                                     "%r gc history (live waiters joining after %r timeouts): %s" % (sp, live_at, m),
+                                     {"spec": sp, "hist": hist})
             return
         if i == "burst":
             syncmodel.burst_family(spec, OPS, [("acq", None), ("rel",), ("acq", "zero")], 6 if tier == "quick" else 8, st)
